@@ -1,1 +1,40 @@
 //! verif-hooks: ser area (read-only accessors; see mod.rs)
+
+/// `size_of` of the element types of the five containers whose capacity is
+/// taken from a length field when variables are loaded, in the order
+/// `Dist::parts`, `Unit::components`, `Value::Object`,
+/// `NamedUnit::base_units`, `Context::variables`.  `UnitExponent`,
+/// `NamedUnit` and `BaseUnit` live in a module that is private to `num`;
+/// they are measured through mirror structs with the same field types.
+#[must_use]
+pub fn container_elem_sizes() -> [usize; 5] {
+	use crate::num::verif_access::{BigRat, Complex};
+	use std::borrow::Cow;
+	use std::collections::HashMap;
+	use std::mem::size_of;
+	#[allow(dead_code)]
+	struct BaseUnitMirror {
+		name: Cow<'static, str>,
+	}
+	#[allow(dead_code)]
+	struct NamedUnitMirror {
+		prefix: Cow<'static, str>,
+		singular_name: Cow<'static, str>,
+		plural_name: Cow<'static, str>,
+		alias: bool,
+		base_units: HashMap<BaseUnitMirror, Complex>,
+		scale: Complex,
+	}
+	#[allow(dead_code)]
+	struct UnitExponentMirror {
+		unit: NamedUnitMirror,
+		exponent: Complex,
+	}
+	[
+		size_of::<(Complex, BigRat)>(),
+		size_of::<UnitExponentMirror>(),
+		size_of::<(Cow<'static, str>, Box<crate::value::Value>)>(),
+		size_of::<(BaseUnitMirror, Complex)>(),
+		size_of::<(String, crate::value::Value)>(),
+	]
+}
